@@ -28,6 +28,11 @@ SITE_THEOREMS = ["C19_K49_to_dict_sites", "C19_K49_to_dict_is_model", "C19_K49_p
                  "C19_K49_trace_mixin", "C19_K49_trace_codec", "C19_K49_from_dict_sites", "C19_K49_from_dict_is_model",
                  "C19_K49_unpack_dc", "C19_K49_from_dict_dispatcher", "C19_K49_de_trace", "C19_K49_declared_hook"]
 
+# keyword forwarding of the nested call = the translated get_pack_method_flags (C08's kernel K8)
+FLAG_THEOREMS = ["C19_K8_call_keywords", "C19_K8_context_forwarded", "C19_K8_model_keywords"]
+# the union packer's try-each = the method the translated loops of pack_union emit (C11's kernel K21)
+UNION_THEOREMS = ["C19_K21_emit_tries", "C19_K21_pack_union_mixin", "C19_K21_pack_union_codec"]
+
 KINDS = ["dict", "dict", "json", "orjson", "msgpack", "yaml", "toml", "plain"]
 CODECS = ["basic", "json", "orjson", "msgpack", "yaml", "toml"]
 
@@ -623,7 +628,7 @@ class CaseTimeout(BaseException):
     """not an Exception: must pass through the `except Exception: pass` of generated try-each code"""
 
 
-CASE_TIMEOUT_S = 8
+CASE_TIMEOUT_S = 20     # wall clock; generous: the machine may be heavily loaded, a normal call takes milliseconds
 
 
 def _on_alarm(signum, frame):
@@ -714,6 +719,10 @@ def run(ctx: vlib.Ctx):
         "meaning of a site list (Python evaluation order of `return self.__post_serialize__({...})`, rebinding of self); the "
         "field emission block, the kwargs-vs-literal decision (K8's) and the encoder are parameters.  K49 itself is compared "
         "on every run with the sites parsed from every method text the library exec's for the generated classes",
+        "reused kernels of other properties: K8 (get_pack_method_flags: C19_K8_* - the keyword list of the nested call is "
+        "the (context?, other keywords) pair the model passes) and K21 (pack_union loops: C19_K21_* - the emitted union "
+        "method is try_each over the distinct call expressions); the abstraction of a union member as UnionModel.pmember "
+        "(class name, expression id, encoder) is C11's",
         "harness/c19lib.py: class-source generator, flattening of inherited fields/hooks/Config (independent re-statement "
         "of get_declared_hook), value/wire materialiser, event canonicaliser (uids), Coq term printer",
         "format libraries json/orjson/msgpack/yaml/tomli_w/tomllib only transport the dict (outputs are decoded and compared)",
@@ -733,6 +742,8 @@ def run(ctx: vlib.Ctx):
     # 1. theorems
     br = ctx.theorems("props/C19_hooks.vo", THEOREMS)
     ctx.theorems("props/C19_sites.vo", SITE_THEOREMS, kernels=["K49"])
+    ctx.theorems("props/C19_flags.vo", FLAG_THEOREMS, kernels=["K8"])
+    ctx.theorems("props/C19_union_emit.vo", UNION_THEOREMS, kernels=["K21"])
     if thorough_tier(ctx) and br.ok:
         # second opinion: the standalone checker re-checks the compiled library and its whole cone
         rc, out, secs = vlib.run(["timeout", "1500", "coqchk", "-o", "-silent", "-Q", "theories", "Verif", "-Q", "gen", "VerifGen",
